@@ -1380,6 +1380,8 @@ def run(ctx):
         except Exception as e:  # noqa: BLE001  the real code behaved in a way the harness cannot digest
             ctx.log(traceback.format_exc()[-1500:])
             ctx.ob(f"C07_{suite.__name__}_completed", False, "search", f"{type(e).__name__}: {e}"[:300])
+    from props import basis_meas
+    basis_meas.run(ctx, PROP, ['light_cone', 'fuse', 'fuse-deepcopy'])
     ctx.notes.append(
         "fusion: every sequence of <=3 gates over all qubit subsets (size<=3, random Gaussian-integer matrices, shuffled qubit order, controlled_by) plus "
         "measurement/callback symbols on n<=3 exhaustively, seeded samples of the length 4-5 families, random n<=6 depth<=30 and layered adversarial circuits, "
